@@ -395,7 +395,10 @@ func CheckC02(run *evid.Run) {
 		o2.Bursts = i%3 == 0
 		o2.Extra = i%4 == 3 // rebuilds from storage (with reused option values in half of the histories), identity changes
 		o2.Hostile = !o2.Extra
-		o2.Truncated = i%5 == 4 // merges from length-limited loads: logs with gaps (an entry's predecessor is not held)
+		// merges from length-limited loads: logs with gaps (an entry's predecessor is not held). Never together with rebuilds
+		// from storage: a replica with a gap that is rebuilt WITHOUT a limit comes back with the gap filled in - a state that
+		// no sequence of appends and unbounded merges reaches, outside this property (and C09's) quantifier
+		o2.Truncated = i%5 == 4 && !o2.Extra
 		o2.BigFanout = true
 		h := hx.Gen(run.Seed, i, o2)
 		x := hx.NewExec(h)
@@ -555,7 +558,7 @@ func CheckC03(run *evid.Run) {
 			o2.Extra = i%4 == 2 // rebuilds from storage, identity changes
 			o2.Hostile = !o2.Extra
 			o2.Bursts = i%3 == 0    // appends || merges into the same replica: afterwards every held entry is in the view
-			o2.Truncated = i%5 == 4 // merges from length-limited loads: logs with gaps (an entry's predecessor is not held)
+			o2.Truncated = i%5 == 4 && !o2.Extra // merges from length-limited loads: logs with gaps; never together with unlimited rebuilds (see C02)
 			h = hx.Gen(run.Seed, i, o2)
 		} else {
 			h = genShapeDAG(run.Seed, i-nh, run.Tier)
